@@ -1,7 +1,5 @@
 from __future__ import annotations
 
-import operator
-
 from datetime import date
 from datetime import datetime
 from datetime import timedelta
@@ -312,15 +310,15 @@ class Interval(Duration, Generic[_T]):
 
     def range(self, unit: str, amount: int = 1) -> Iterator[_T]:
         method = "add"
-        op = operator.le
-        if not self._absolute and self.invert:
+        inverted = not self._absolute and self.invert
+        if inverted:
             method = "subtract"
-            op = operator.ge
 
         start, end = self.start, self.end
 
         i = amount
-        while op(start, end):
+        # Not beyond the end, as instants (see _is_after)
+        while not (_is_after(end, start) if inverted else _is_after(start, end)):
             yield start
 
             start = getattr(self.start, method)(**{unit: i})
